@@ -98,6 +98,8 @@ pub struct RefRun {
     pub lookups: u64,
     pub calls: u64,
     pub pulls: u64,
+    /// the program held the payload of an exhausted iterator step in its hands (manual pull past the end)
+    pub unspec_manual: bool,
 }
 
 pub fn run_ref(body: &[S], fuel: u64) -> RefRun {
@@ -110,7 +112,7 @@ pub fn run_ref(body: &[S], fuel: u64) -> RefRun {
         Err(Flow::Break) | Err(Flow::Continue) => RefOutcome::GiveUp("break/continue at top level".into()),
         Err(Flow::Return(_)) => RefOutcome::GiveUp("return at top level".into()),
     };
-    RefRun { outcome, log: m.log.iter().map(|k| *k as i64).collect(), lookups: m.lookups, calls: m.calls, pulls: m.pulls }
+    RefRun { outcome, log: m.log.iter().map(|k| *k as i64).collect(), lookups: m.lookups, calls: m.calls, pulls: m.pulls, unspec_manual: m.unspec_manual > 0 }
 }
 
 /// verdict of comparing one real run with the reference
@@ -159,6 +161,9 @@ pub fn compare_runs(real: &RealRun, reference: &RefRun, judge: &Judge) -> Diff {
             }
             match refeval::compare(v, rv) {
                 Ok(()) => Diff::Same,
+                // the program took the payload of an exhausted iterator step into its own hands: no value of the
+                // payload's static type exists (known finding of C01), whatever is computed from it is not judged
+                Err(_) if reference.unspec_manual => Diff::Skip("reference:uses an unspecified exhausted-iterator payload".into()),
                 Err(why) => Diff::Differ("value".into(), why),
             }
         }
